@@ -4,3 +4,4 @@ pub mod driver;
 pub mod r#gen;
 pub mod model;
 pub mod replica;
+pub mod syncer;
